@@ -70,7 +70,7 @@ func clone(v interface{}) interface{} {
 }
 
 // EditKinds are the structural edits applied at a pointer.
-var EditKinds = []string{"delete", "null", "string", "number", "bool", "array", "object", "rename-empty", "rename-dotted", "rename-sibling", "ref-nowhere", "ref-sibling", "ref-xsibling", "name-dotted", "case-flip", "transplant", "dup-into-array"}
+var EditKinds = []string{"delete", "null", "string", "number", "bool", "array", "object", "rename-empty", "rename-dotted", "rename-sibling", "ref-nowhere", "ref-sibling", "ref-xsibling", "name-dotted", "case-flip", "blank", "transplant", "dup-into-array"}
 
 // Edit is one structural edit.
 type Edit struct {
@@ -189,6 +189,13 @@ func Apply(doc interface{}, e Edit) interface{} {
 		}
 		m["description"] = "sibling of a reference"
 		m["default"] = "d"
+	case "blank":
+		// the empty string in place of a non-empty one (formats, patterns and enumerations still apply to it)
+		str, ok := cur.(string)
+		if !ok || str == "" {
+			return nil
+		}
+		set("")
 	case "case-flip":
 		// the same text in another letter case (enumerated values are case sensitive)
 		str, ok := cur.(string)
